@@ -175,7 +175,7 @@ def cases(draw):
 
 def run_shard(ctx):
     K = ctx.scale(oracle.K_QUICK, 100)
-    hyp_search(ctx, cases(), lambda c: check_case(c, ctx.stats, K), ctx.scale(110, 3500))
+    hyp_search(ctx, cases(), lambda c: check_case(c, ctx.stats, K), ctx.scale(110, 1500))
 
 
 def replay(case):
